@@ -35,6 +35,17 @@ mod driver {
             last_updated: 0,
         }
     }
+    fn endpoint_from(case: &Value, p: &str) -> PeerEndpoint {
+        let nats = [NatType::NoNat, NatType::FullCone, NatType::RestrictedCone, NatType::PortRestricted, NatType::Symmetric, NatType::Unknown];
+        PeerEndpoint {
+            endpoint_id: EndpointId::from_uuid(Uuid::from_u128(u(case, &format!("{p}.uuid")) as u128)),
+            external_address: format!("192.168.1.1:{}", 1 + (u(case, &format!("{p}.port")) % 65535)).parse::<NetworkAddress>().unwrap(),
+            nat_type: nats[(u(case, &format!("{p}.nat")) % 6) as usize],
+            coordinator_nodes: vec![format!("c{}", u(case, &format!("{p}.coord")))],
+            device_info: if b(case, &format!("{p}.dev_some")) { Some(format!("d{}", u(case, &format!("{p}.dev")))) } else { None },
+            last_updated: u(case, &format!("{p}.last_updated")),
+        }
+    }
 
     struct World {
         keys: Map<u64, (MlDsaPublicKey, MlDsaSecretKey)>,
@@ -50,7 +61,7 @@ mod driver {
         let elen = (u(case, &format!("{p}.elen")) as usize).min(2);
         let mut ends = Vec::new();
         for i in 0..elen {
-            ends.push(endpoint(u(case, &format!("{p}.end{i}"))));
+            ends.push(endpoint_from(case, &format!("{p}.end{i}")));
         }
         // user id: the derived one when the model says so, else the model's bytes
         let model_uid = bytes32(case, &format!("{p}.user_id"));
